@@ -6,6 +6,7 @@ import (
 	"fmt"
 	"math/big"
 	"strings"
+	"sync"
 
 	"github.com/onflow/crypto"
 )
@@ -336,4 +337,70 @@ func genC03(c *Ctx) {
 		b5, e5 := crypto.BatchVerifyBLSSignaturesOneMessage([]crypto.PublicKey{k.PublicKey(), ec}, []crypto.Signature{sig, sig}, msg, h)
 		return strings.Join([]string{errClass(e1), allFalse(b1), errClass(e2), allFalse(b2), errClass(e3), allFalse(b3), errClass(e4), allFalse(b4), errClass(e5), allFalse(b5)}, " ")
 	}))
+	// overlapping batch verifications, each worker with its own small batch (3 to 18 entries, one or two invalid ones at
+	// known places): the verdict vector is a function of the batch, whatever other batches are verified at the same time
+	for round := 0; round < 3; round++ {
+		const g = 6
+		type batch struct {
+			pks  []crypto.PublicKey
+			sigs []crypto.Signature
+			msg  []byte
+			want string
+		}
+		bs := make([]*batch, g)
+		for i := range bs {
+			b := &batch{msg: msg}
+			if i%2 == 1 {
+				b.msg = []byte(fmt.Sprintf("another message %d", i))
+			}
+			n := 3 + (i*5+round*3)%16
+			want := make([]bool, n)
+			for k := 0; k < n; k++ {
+				sk := skFromInt(c.randScalar())
+				sg, _ := sk.Sign(b.msg, h)
+				want[k] = true
+				if k == i%n || k == (2*i+1)%n {
+					sg, _ = skFromInt(c.randScalar()).Sign(b.msg, h)
+					want[k] = false
+				}
+				b.pks, b.sigs = append(b.pks, sk.PublicKey()), append(b.sigs, sg)
+			}
+			b.want = fmt.Sprint(want)
+			bs[i] = b
+		}
+		res := make([]string, g)
+		start := make(chan struct{})
+		var wg sync.WaitGroup
+		for i := range bs {
+			wg.Add(1)
+			go func(i int) {
+				defer wg.Done()
+				b := bs[i]
+				hh := crypto.NewExpandMsgXOFKMAC128("batch")
+				<-start
+				for rep := 0; rep < 8 && res[i] == ""; rep++ {
+					res[i] = guard(func() string {
+						v, err := crypto.BatchVerifyBLSSignaturesOneMessage(b.pks, b.sigs, b.msg, hh)
+						if err != nil {
+							return "error " + errClass(err)
+						}
+						if fmt.Sprint(v) != b.want {
+							return fmt.Sprintf("worker %d repetition %d: got %v want %s", i, rep, v, b.want)
+						}
+						return ""
+					})
+				}
+			}(i)
+		}
+		close(start)
+		wg.Wait()
+		verdict := "ok"
+		for _, r := range res {
+			if r != "" {
+				verdict = r
+				break
+			}
+		}
+		c.Case("overlapping-batches", fmt.Sprintf("expect ok #overlap %d", round), verdict)
+	}
 }
